@@ -11,7 +11,7 @@ from .c14 import r123_tables
 
 PID = "C09"
 META = {
-    "explanation": "Static extraction of the file format embodied by the current tree's MIR — trailer write/read sequences per version (width, endianness, source of each field, magic, seek distances), block framing, entry framing (symbolic layout), offset-table footer, index-entry value encoding, codec id table and its inverse, an inventory of every integer<->bytes conversion with its endianness, varint tables — compared as data with the constants of the statement, with the opposite side (writer vs reader), and, with the same extractor, with grenad 0.4.7 from the cargo registry (XVER, both tiers). Also re-runs the structural rules that make index levels map last keys to child offsets. Byte-level conformance of emitted files needs execution and is not decided; the codec crates' own stream formats are trusted.",
+    "explanation": "Static extraction of the file format embodied by the current tree's MIR — trailer write/read sequences per version (width, endianness, source of each field, magic, seek distances), block framing, entry framing (symbolic layout), offset-table footer, index-entry value encoding, codec id table and its inverse, an inventory of every integer<->bytes conversion with its endianness, varint tables — compared as data with the constants of the statement, with the opposite side (writer vs reader), and, with the same extractor, with grenad 0.4.7 from the cargo registry (XVER, both tiers). Also re-runs the structural rules that make index levels map last keys to child offsets. Byte-level conformance of emitted files needs execution and is not decided; the codec crates' own stream formats are trusted. Files written by 0.4.7 are read through this cursor: the shared cursor-traversal rules (rules/shared.py) are re-run as necessary conditions of interoperation.",
     "assumptions": ["byteorder's read_uN/write_uN::<E> read/write exactly N/8 bytes in endianness E", "the codec crate versions are the same on both sides in this sandbox"],
 }
 
@@ -41,6 +41,10 @@ def run(ck):
         ck.guard("C09-R9", r6_offsets_from_count, ck, F, "C09-R9")
         # the varint framing conditions (shared with C14)
         ck.guard("C09-R3", r123_tables, ck, F)
+        from . import shared
+        shared.file_wellformed(ck, F, "C09-R8")
+        # "interoperates": files written by 0.4.7 are read by this cursor
+        shared.cursor_traversal(ck, F, "C09-R10")
     ck.guard("C09-R7", r7_xver, ck)
     ck.trusted += ["rustc MIR construction", "byteorder", "the codec crates' stream formats"]
 
